@@ -5,12 +5,14 @@ import (
 	"bytes"
 	"encoding/json"
 	"fmt"
+	"io"
 	"reflect"
 	"strconv"
 	"strings"
 	"time"
 
 	"github.com/parsyl/parquet"
+	"verif/mc/env"
 	"verif/mc/families"
 	"verif/mc/fw"
 	"verif/mc/oracle"
@@ -135,11 +137,42 @@ func cmpValue(name string, fv reflect.Value, tv refpq.TVal, present bool, out *[
 	}
 }
 
-// checkFile applies the C16 oracle to a file.
+// sources through which the introspection calls read the file: a plain
+// bytes.Reader and sources that fragment their reads (what is in the file
+// does not depend on how the source hands it out)
+var sourceKinds = []struct {
+	name string
+	plan *env.SourcePlan
+}{
+	{"", nil},
+	{"chunk1:", &env.SourcePlan{Chunk: 1}},
+	{"chunk3+eofdata:", &env.SourcePlan{Chunk: 3, EOFWithData: true}},
+	{"chunk64:", &env.SourcePlan{Chunk: 64}},
+}
+
+// checkFile applies the C16 oracle to a file through every kind of source.
 func checkFile(file []byte) []oracle.Failure {
 	var out []oracle.Failure
+	for _, sk := range sourceKinds {
+		sk := sk
+		out = append(out, checkFileVia(file, sk.name, func() io.ReadSeeker {
+			if sk.plan == nil {
+				return bytes.NewReader(file)
+			}
+			r, _ := env.NewSource(file, *sk.plan)
+			return r
+		})...)
+		if len(out) > 0 {
+			break
+		}
+	}
+	return out
+}
+
+func checkFileVia(file []byte, via string, src func() io.ReadSeeker) []oracle.Failure {
+	var out []oracle.Failure
 	add := func(code, format string, a ...interface{}) {
-		out = append(out, oracle.Failure{Class: "introspection", Code: code, Msg: fmt.Sprintf(format, a...)})
+		out = append(out, oracle.Failure{Class: "introspection", Code: via + code, Msg: fmt.Sprintf(format, a...)})
 	}
 	pf, err := refpq.ParseFile(file, refpq.ParseOptions{})
 	if err != nil {
@@ -148,7 +181,7 @@ func checkFile(file []byte) []oracle.Failure {
 	var pmsg string
 	// ReadMetaData
 	pmsg = fw.Protect(func() {
-		meta, err := parquet.ReadMetaData(bytes.NewReader(file))
+		meta, err := parquet.ReadMetaData(src())
 		if err != nil {
 			add("ReadMetaData", "ReadMetaData failed on a valid file: %v", err)
 			return
@@ -159,7 +192,7 @@ func checkFile(file []byte) []oracle.Failure {
 			add("ReadMetaData.diff", "%s", d)
 		}
 		// PageHeaders(footer, r)
-		hs, err := parquet.PageHeaders(meta, bytes.NewReader(file))
+		hs, err := parquet.PageHeaders(meta, src())
 		if err != nil {
 			add("PageHeaders", "PageHeaders failed on a valid file: %v", err)
 			return
@@ -191,7 +224,7 @@ func checkFile(file []byte) []oracle.Failure {
 				rem := ch.NumValues
 				for pi := range ch.Pages {
 					start := ch.Pages[pi].Offset
-					got, err := parquet.PageHeadersAtOffset(bytes.NewReader(file), int64(start), rem)
+					got, err := parquet.PageHeadersAtOffset(src(), int64(start), rem)
 					if err != nil {
 						add("PageHeadersAtOffset", "row group %d column %d from page %d (offset %d, n=%d): %v", gi, ci, pi, start, rem, err)
 						break
@@ -254,7 +287,7 @@ func Main() {
 		ID:    "C16",
 		Level: "exploration",
 		Rule: "for every file of the exhaustive families (boundary product over record sequences x batch partitions x page sizes x codecs; long runs; structure-exhaustive on nested shapes): ReadMetaData is compared field by field (thrift ids, presence and values) with the reference parser's footer tree; PageHeaders(footer, r) with the independent sequential walk of the file (one header per page, file order, every field); " +
-			"PageHeadersAtOffset(r, off, n) for every chunk start with n = chunk num_values and for every later page start with n = values remaining in the chunk. distinct = (family, case tag)",
+			"PageHeadersAtOffset(r, off, n) for every chunk start with n = chunk num_values and for every later page start with n = values remaining in the chunk; all three calls through a bytes.Reader and through sources that fragment their reads (1 byte, 3 bytes with data+EOF, 64 bytes). distinct = (family, case tag)",
 		Assumptions: []string{
 			"only files written by the library's own writer are inspected (all valid per C02); foreign files are the subject of C04",
 		},
